@@ -8,13 +8,19 @@ package cache
 var ghostClock int64
 var ghostClockReads int
 
+// upper bound of the clock stub (BMC harnesses use a small range: only the order of clock values and
+// lifetimes matters there; the full 64-bit range is covered by the sequential C04/C07 harnesses)
+var ghostClockMax int64 = 1 << 62
+
 // The wall clock is an arbitrary non-decreasing value at every read ("free" clock model):
 // 1 <= now < 2^62.  A clock that steps backwards is outside the claim.
 //
 //verif:hook github.com/vicanso/pike/cache.nowUnix
 func verifHook_nowUnix() int64 {
 	n := verifInt64("now")
-	verifAssume(n >= ghostClock && n >= 1 && n < 1<<62)
+	verifAssume(n >= ghostClock)
+	verifAssume(n >= 1)
+	verifAssume(n < ghostClockMax)
 	ghostClock = n
 	ghostClockReads++
 	return n
